@@ -142,7 +142,7 @@ func useDecls(t *rapid.T, local string, k int, u *int) []string {
 	for i := 0; i < n; i++ {
 		*u++
 		id := *u
-		kind := rapid.IntRange(0, 20).Draw(t, "use")
+		kind := rapid.IntRange(0, 21).Draw(t, "use")
 		if i == 0 && kind == 7 {
 			kind = 0 // the first use must really use the package (else: imported and not used)
 		}
@@ -188,6 +188,14 @@ func useDecls(t *rapid.T, local string, k int, u *int) []string {
 		case 17:
 			// method expression and method value on a package-level type / variable
 			out = append(out, fmt.Sprintf("var u%d, v%d = %s.M, %s.M", id, id, q(local, fmt.Sprintf("T%d", k)), q(local, fmt.Sprintf("S%d", k))))
+		case 20:
+			// a parameter named like the package, of a type from that package, and a selector on it:
+			// inside the body the name is the parameter, not the package
+			if local == "" {
+				out = append(out, fmt.Sprintf("func u%d(shadow %s) int {\n\treturn shadow.M() + shadow.A\n}", id, q(local, fmt.Sprintf("T%d", k))))
+			} else {
+				out = append(out, fmt.Sprintf("func u%d(%s %s) int {\n\treturn %s.M() + %s.A\n}", id, local, q(local, fmt.Sprintf("T%d", k)), local, local))
+			}
 		case 18, 19:
 			// self-contained statements, each tagged by a string literal, that can be moved into
 			// any other function body
